@@ -25,7 +25,9 @@ PASS_CHECKS = {"rename_locals_base_score": ["C01", "C06"], "extract_helper_explo
                "unused_field_added": ["C15", "C09"], "function_moved_file": ["C06", "C12"], "buffer_by_value": ["C19"], "encode_fprintf_writebyte": ["C10"]}
 AREA = {"m31": ["C15", "C20", "C01", "C03"], "m32": ["C15", "C01", "C07", "C10"], "m33": ["C15", "C02", "C03", "C07", "C10", "C14"],
         "m34": ["C15", "C06", "C01", "C07"], "m35": ["C15", "C04", "C05", "C20", "C08"], "m36": ["C15", "C04", "C05", "C08", "C13"],
-        "m37": ["C15", "C17", "C19"], "m38": ["C15", "C18", "C17"]}
+        "m37": ["C15", "C17", "C19"], "m38": ["C15", "C18", "C17"],
+        "n51": ["C15", "C01", "C03", "C07", "C10"], "n52": ["C15", "C04", "C05", "C08", "C20"], "n53": ["C15", "C17", "C18", "C19"],
+        "n54": ["C15", "C01", "C04", "C07", "C08", "C10", "C17"]}
 def run(kind, flt):
     results = []
     if kind in ("pass", "fail", "harmless"):
